@@ -1,10 +1,10 @@
 SPECIFICATION RSpec
-CONSTANTS NS = 2
+CONSTANTS NS = 1
           NC = 2
           CapMod = 2
-          MaxSends = 1
+          MaxSends = 2
           MaxSubs = 1
-          NCallers = 1
+          NCallers = 2
           Senders <- MCSenders
           Chans <- MCChans
           Cap <- MCCap
